@@ -339,4 +339,46 @@ def render (share : Nat → Nat → Nat → Nat) (st : TableStyle) (given : List
   let raw ← renderRaw share st given t width indent
   pure (raw.filterMap finish)
 
+/-! ### Deciders for the hypotheses of the rendering theorems (Props/C14)
+
+Evaluated by the driver on the style, table, alignments and terminal width of every generated
+case (`c14.render`, answer field `wf`) and compared with what the REAL style / table say.
+`Props.C14.wf_decides` ties them to the hypotheses (`feasible`, `styleOk`, `rightSolid` of
+Lemmas/Table are the same expressions). -/
+
+/-- "at least one character per column beside the borders": `available_width ≥ nb_columns` -/
+def feasibleB (st : TableStyle) (t : Table) (width indent : Nat) : Bool :=
+  decide (indent + borderWidth st t.n + t.n * excess st + t.n ≤ width)
+
+/-- a border line is either drawn with a one-character line string and corner/crossing strings
+as long as the vertical border strings, or is entirely blank (then it is not written) -/
+def borderOkB (st : TableStyle) (lineCh l c r : Str) : Bool :=
+  (lineCh.length == 1 && l.length == st.border.line_vl_char.length
+    && c.length == st.border.line_vc_char.length && r.length == st.border.line_vr_char.length)
+  || (lineCh.isEmpty && l.all isWs && c.all isWs && r.all isWs)
+
+/-- what the rectangle needs from a table style -/
+def styleOkB (st : TableStyle) (hasHeader : Bool) : Bool :=
+  st.padding_char.length == 1 && fmtLen st.cell_format == excess st
+  && (!hasHeader || fmtLen st.header_cell_format == excess st)
+  && borderOkB st st.border.line_ht_char st.border.corner_tl_char st.border.crossing_t_char st.border.corner_tr_char
+  && borderOkB st st.border.line_hc_char st.border.crossing_l_char st.border.crossing_c_char st.border.crossing_r_char
+  && borderOkB st st.border.line_hb_char st.border.corner_bl_char st.border.crossing_b_char st.border.corner_br_char
+
+/-- the string ends with a non-blank character -/
+def solidEndB (s : Str) : Bool :=
+  match s.getLast? with
+  | some c => !isWs c
+  | none => false
+
+/-- the right border string and the three right corner/crossing strings end non-blank -/
+def rightSolidB (st : TableStyle) : Bool :=
+  solidEndB st.border.line_vr_char && solidEndB st.border.corner_tr_char
+  && solidEndB st.border.crossing_r_char && solidEndB st.border.corner_br_char
+
+/-- all hypotheses of `render_ok`, `rect`, `within_terminal` (and `1 ≤ n` of `rect_equal`) -/
+def wfB (st : TableStyle) (given : List Nat) (t : Table) (width indent : Nat) : Bool :=
+  feasibleB st t width indent && decide (given.length ≤ t.n) && styleOkB st t.header.isSome
+  && decide (1 ≤ t.n)
+
 end Clikit.Table
